@@ -59,7 +59,8 @@ def job(spec):
         data = (np.arange(n * c, dtype=np.int64) % top).reshape(n, c)
     else:
         data = rng.integers(0, top, size=(n, c), dtype=np.int64)
-    names = fixtures.write_set(d, f"c06_{spec['id']}", data, nbits, spec["split"], **BAND)
+    band = dict(BAND, fch1=float(max(8, c + 4)))     # every channel frequency >= 5 MHz
+    names = fixtures.write_set(d, f"c06_{spec['id']}", data, nbits, spec["split"], **band)
     files = [list(open(f, "rb").read()[-(k * c * nbits // 8):]) if k else [] for f, k in zip(names, spec["split"])]
     hdr = {"files": files, "nbits": nbits, "nchans": c, "vals": [int(x) for x in data.ravel()], "N": n}
     ev = []
